@@ -79,6 +79,7 @@ def gen_solve_case(rng):
     P = [Fraction(1, 4), Fraction(1, 2), Fraction(1), Fraction(2), Fraction(4), Fraction(8)]
     P = P + [-x for x in P]
     up = case['updates'][0]
+    force_pow2 = rng.random() < 0.5      # every scale factor a power of two: exact arithmetic, exact comparisons
     for c in case['comps']:
         if solver in ('direct', 'direct_asm', 'krylov', 'krylov_asm') and rng.random() < 0.4:
             c['implicit'] = True
@@ -96,7 +97,7 @@ def gen_solve_case(rng):
                 r0 = rng.choice([r for r in [0, 0, 1, -2, Fraction(1, 2), 3] if r not in bad])
                 o['ref0'] = r0
                 o['ref'] = [x + r0 for x in a1] if arr else a1 + r0
-                if rng.random() < 0.8:
+                if force_pow2 or rng.random() < 0.8:
                     o['res_ref'] = pick()
     return jsonq(case)
 
@@ -205,6 +206,24 @@ class C02(Spec):
     def got_term(self, case):
         aux = self.aux[id(case)]
         L = Layout(case)
+        if case['kind'] == 'solve':
+            # DirectSolver._build_mtx = Dr^-1 M Du, M = dr/do of the group, Du = ref - ref0, Dr = res_ref (default ref)
+            keys = [tuple(k) for k in aux['drdo']]
+            up = case['updates'][0]
+            du, dr = [], []
+            for c in sorted(case['comps'], key=lambda c: c['name']):
+                for o in c['outputs']:
+                    ref, ref0, rr = o.get('ref', 1), o.get('ref0', 0), o.get('res_ref')
+                    refs = [c11.fr(x) for x in ref] if isinstance(ref, list) else [c11.fr(ref)] * o['size']
+                    du += [a - c11.fr(ref0) for a in refs]
+                    if rr is None:
+                        # ExplicitComponent.add_output: res_ref defaults to ref; ImplicitComponent: no residual scaling
+                        dr += [Fraction(1)] * o['size'] if c['implicit'] else refs
+                    else:
+                        dr += [c11.fr(x) for x in rr] if isinstance(rr, list) else [c11.fr(rr)] * o['size']
+            return '(vmat (todense (scale_T %s %s (all_triples [%s] [%s])) %d %d))' % (
+                qd(dr), qd(du), '; '.join(L.subjac(k, 'drdo') for k in keys),
+                '; '.join(qd(L.vals(k, up, 0)) for k in keys), L.nout, L.nout)
         parts = []
         # 1. raw transfers
         xs = []
